@@ -71,7 +71,7 @@ PROPS = {
 # Panics / debug assertions / crashes inside mmtk-core have no native property and always count.
 RELATED = {
     # heap integrity: a broken mechanism of any of these shows as lost / corrupt / overlapping objects
-    "C01": {"C01"},
+    "C01": {"C01", "C17"},
     "C02": {"C02"},
     "C03": {"C03"},
     "C04": {"C04"},
